@@ -69,6 +69,12 @@ def _make_objective(spec):
             z = (np.asarray(x, dtype=float) - lo) / (hi - lo)
             return float("inf") if z[0] > 0.85 else four(x)
 
+    elif kind == "holes":  # NaN on a slab of the domain (legal input: NaN is ordered as worst)
+
+        def f(x):
+            z = (np.asarray(x, dtype=float) - lo) / (hi - lo)
+            return float("nan") if 0.4 < z[0] < 0.6 else four(x)
+
     elif kind == "sphere":
 
         def f(x):
@@ -98,6 +104,25 @@ class Rec:
         self.calls.append((self.run.who, xt, float(v)))
         self.run.ev.append(("EVAL", self.level, self.run.who, xt, float(v)))
         return v
+
+
+class CountingObjective:
+    """picklable callable objective (module-level class) that counts its invocations"""
+
+    def __init__(self, spec, level):
+        self.spec = spec
+        self.level = level
+        self.n = 0
+        self._fn = None
+
+    def __getstate__(self):
+        return {"spec": self.spec, "level": self.level, "n": self.n, "_fn": None}
+
+    def __call__(self, x):
+        if self._fn is None:
+            self._fn = make_objective(self.spec, self.level)
+        self.n += 1
+        return self._fn(x)
 
 
 # ---------------------------------------------------------------- user-defined stop conditions
@@ -248,7 +273,8 @@ def rand_spec(rng, **force):
 
 
 # ---------------------------------------------------------------- building the real objects
-def build(spec, run):
+def build(spec, run, plain=None):
+    """plain: None = recording objective tied to `run`; "callable" / "lambda" = untraced, picklable objectives"""
     import pyhms
     from pyhms import config as C
     from pyhms.core import problem as P
@@ -267,8 +293,13 @@ def build(spec, run):
 
     def mk_problem(level):
         nonlocal precision_problem
-        r = Rec(make_objective(spec, level), level, run)
-        fp = P.FunctionProblem(r, bounds=bounds, maximize=spec["maximize"])
+        if plain is None:
+            r = Rec(make_objective(spec, level), level, run)
+            fn = r
+        else:
+            r = CountingObjective(spec, level)
+            fn = r if plain == "callable" else (lambda x, _r=r: _r(x))
+        fp = P.FunctionProblem(fn, bounds=bounds, maximize=spec["maximize"])
         p = fp
         if spec.get("cutoff"):
             p = P.EvalCutoffProblem(p, spec["cutoff"])
